@@ -437,7 +437,11 @@ add('competition/anm-duplicate-intrinsics', 'ANM_12', mapfiles=['''!anmmap
     if (I1 < 10) goto again;
     loop { I0 = I0 + 1; if (I0 == 20) break; }
 ''')
-add('competition/ecl07-duplicate-intrinsics', 'ECL_07', mapfiles=['''!eclmap
+# (tagged no-roundtrip: the recompile of the decompiled text sees the mapfiles in a different order than
+#  the original compile - `-m` file first, then the source's `#pragma mapfile "map/any.eclm"` - so a mapfile
+#  that re-maps a builtin intrinsic legitimately changes which opcode is chosen; that is the scenario's
+#  doing, not a round-trip defect)
+add('competition/ecl07-duplicate-intrinsics', 'ECL_07', tags=['no-roundtrip'], mapfiles=['''!eclmap
 !ins_signatures
 999 Sot
 998 SS
